@@ -58,6 +58,8 @@ pub enum ObsOp {
     /// a subscriber of a second, unrelated observable is overwritten with `clone_from(&src)`: from
     /// then on it is one more subscriber of ours, with src's observed state
     ForeignSubCloneFrom(u8),
+    /// `mem::swap` two live subscribers: each now lives at the other's address (Subscriber is Unpin)
+    SubSwap(u8, u8),
     SubReset(u8),
     SubGet(u8),
     SubRead { sub: u8, hold: bool },
@@ -755,6 +757,20 @@ impl<F: Flavor> W<F> {
                 self.rep.classes.push("subscriber_clone_from");
                 Ok(())
             }
+            ObsOp::SubSwap(a, b) => {
+                let live = self.live_subs();
+                let (Some(x), Some(y)) = (pick(a, &live), pick(b, &live)) else { return Ok(()) };
+                if x == y || self.sub_has_guard(x) || self.sub_has_guard(y) {
+                    return Ok(());
+                }
+                let px: *mut F::Sub = &mut **self.subs[x].as_mut().unwrap();
+                let py: *mut F::Sub = &mut **self.subs[y].as_mut().unwrap();
+                // two distinct boxes: the subscriber objects change places in memory
+                unsafe { std::ptr::swap(px, py) };
+                self.msubs.swap(x, y);
+                self.rep.classes.push("subscribers_swapped_in_memory");
+                Ok(())
+            }
             ObsOp::ForeignSubCloneFrom(src) => {
                 let Some(sr) = pick(src, &self.live_subs()) else { return Ok(()) };
                 if self.live_subs().len() >= 5 || wheld {
@@ -1210,6 +1226,7 @@ pub fn op(g: &ObsGen) -> BoxedStrategy<ObsOp> {
             1 => ix().prop_map(ObsOp::SubCloneReset),
             1 => (ix(), ix()).prop_map(|(dst, src)| ObsOp::SubCloneFrom { dst, src }),
             1 => ix().prop_map(ObsOp::ForeignSubCloneFrom),
+            1 => (ix(), ix()).prop_map(|(a, b)| ObsOp::SubSwap(a, b)),
             1 => ix().prop_map(ObsOp::SubReset),
             2 => ix().prop_map(ObsOp::SubGet),
             1 => (ix(), any::<bool>()).prop_map(|(sub, hold)| ObsOp::SubRead { sub, hold }),
